@@ -345,16 +345,19 @@ pub(crate) fn collect_and_prepare<S: IndexedFull>(
                     }
                     Ordering::Equal => {
                         // process existing node
-                        if (node.is_dir() && !destination.file_type().is_dir())
+                        let exists = if (node.is_dir() && !destination.file_type().is_dir())
                             || (node.is_file() && !destination.file_type().is_file())
                             || node.is_special()
                         {
                             // if types do not match, first remove the existing file
                             next_dst = process_existing(&mut walker, destination)?;
+                            // the existing entry cannot be used for this node
+                            false
                         } else {
                             next_dst = next_entry(&mut walker);
-                        }
-                        process_node(path, node, true)?;
+                            true
+                        };
+                        process_node(path, node, exists)?;
                         next_node = node_streamer.next().transpose()?;
                     }
                     Ordering::Greater => {
